@@ -225,7 +225,8 @@ def run_model_sharded(kind, cases_file, out_file, shards=NCPU, timeout=1800):
         inp = os.path.join(tmpd, "in%d" % k)
         idx = sorted(buckets[k])
         open(inp, "w").write("\n".join(lines[i] for i in idx) + "\n")
-        p = subprocess.run([DRIVER, kind, inp], stdout=subprocess.PIPE, stderr=subprocess.PIPE, timeout=timeout, text=True)
+        p = subprocess.run(["bash", "-c", "ulimit -s unlimited 2>/dev/null; exec %s %s %s" % (DRIVER, kind, inp)],
+                           stdout=subprocess.PIPE, stderr=subprocess.PIPE, timeout=timeout, text=True)
         return k, idx, p.returncode, p.stdout, p.stderr
 
     results = {}
